@@ -230,8 +230,9 @@ func diffResults(a, b canonResult) resultDiff {
 //  1. some step j ≤ k changes the effective JSX runtime selected by tsconfig.json (classic, or automatic with its
 //     development flag and import source), whether by editing, breaking, deleting or re-creating tsconfig.json;
 //  2. a .jsx/.tsx file exists at step k whose bytes were not changed by any operation of steps j..k (a touch does not count);
-//  3. every output file whose bytes differ lists such a file among its metafile inputs, or imports an output file that does
-//     (hashed chunk names propagate); checked when the case asks for a metafile and both results have one. Every
+//  3. every output file whose bytes differ lists such a file among its metafile inputs, or is connected to one that does
+//     by chunk import edges through differing outputs (hashed chunk names propagate to importers; the automatic runtime's
+//     module moves between shared chunks); checked when the case asks for a metafile and both results have one. Every
 //     diagnostic that differs is located in such a file.
 const knownJSX = "C09-jsx-runtime-stale"
 
@@ -333,8 +334,10 @@ type metafileDoc struct {
 }
 
 // explainedByStaleInputs reports whether every output in differing (names of either side) is explained by a stale input:
-// it lists one of files among its metafile inputs, or it imports (according to either metafile) an explained output — a
-// chunk whose bytes changed gets a new hash in its name, which changes the bytes of every chunk that imports it.
+// it lists one of files among its metafile inputs, or it is connected to such an output by import edges (of either
+// metafile, in either direction) that run through differing outputs only. A chunk whose bytes changed gets a new hash in
+// its name, which changes the bytes of every chunk that imports it; and a file whose transform changed imports other
+// modules (the automatic JSX runtime), which changes what the shared chunks contain.
 func explainedByStaleInputs(metas []string, differing []string, files map[string]bool) bool {
 	var docs []metafileDoc
 	for _, m := range metas {
@@ -344,6 +347,10 @@ func explainedByStaleInputs(metas []string, differing []string, files map[string
 		}
 		docs = append(docs, doc)
 	}
+	isDiffering := map[string]bool{}
+	for _, out := range differing {
+		isDiffering[out] = true
+	}
 	explained := map[string]bool{}
 	for changed := true; changed; {
 		changed = false
@@ -351,22 +358,29 @@ func explainedByStaleInputs(metas []string, differing []string, files map[string
 			if explained[out] {
 				continue
 			}
+			hit := false
 			for _, doc := range docs {
-				o, found := doc.Outputs[out]
-				if !found {
-					continue
+				if o, found := doc.Outputs[out]; found {
+					for in := range o.Inputs {
+						hit = hit || files[in]
+					}
+					for _, im := range o.Imports {
+						hit = hit || explained[im.Path] // imports an explained output: its hashed name changed
+					}
 				}
-				hit := false
-				for in := range o.Inputs {
-					hit = hit || files[in]
+				// is imported by an explained output: changing the transform of a file changes which modules it imports
+				// (the automatic runtime), hence which modules are shared between chunks and what the shared chunks contain
+				for name, o := range doc.Outputs {
+					if explained[name] && isDiffering[name] {
+						for _, im := range o.Imports {
+							hit = hit || im.Path == out
+						}
+					}
 				}
-				for _, im := range o.Imports {
-					hit = hit || explained[im.Path]
-				}
-				if hit {
-					explained[out] = true
-					changed = true
-				}
+			}
+			if hit {
+				explained[out] = true
+				changed = true
 			}
 		}
 	}
@@ -577,9 +591,9 @@ func matchesKnownMetaDup(fresh, rebuilt canonResult, d resultDiff) bool {
 // to: re-pointing the link, or removing/creating a link target that the build only stat'ed, changes the result of a fresh
 // build while every watch predicate stays clean.
 //
-// Signature (a predicate over the case): before the step the tree contains symbolic links, and every operation of the step
-// either re-points one of them (a "symlink" operation on an existing link) or creates/removes/renames exactly the path that
-// one of them (transitively) points to.
+// Signature (a predicate over the case): no predicate of the previous build is dirty although the fresh result changed,
+// the tree contains symbolic links before the step, and an operation of the step re-points one of them (a "symlink"
+// operation on an existing link) or creates/removes/renames exactly the path that one of them (transitively) points to.
 const knownSymlinkWatch = "C09-watch-symlink-unwatched"
 
 func linkTargets(links map[string]string) map[string]bool {
@@ -603,29 +617,27 @@ func linkTargets(links map[string]string) map[string]bool {
 }
 
 func matchesKnownSymlinkWatch(linksBefore map[string]string, ops []fsgen.Op) bool {
-	if len(linksBefore) == 0 || len(ops) == 0 {
+	if len(linksBefore) == 0 {
 		return false
 	}
 	targets := linkTargets(linksBefore)
 	for _, o := range ops {
 		switch o.Op {
 		case "symlink":
-			if _, ok := linksBefore[o.Path]; !ok {
-				return false
+			if _, ok := linksBefore[o.Path]; ok {
+				return true
 			}
 		case "write", "replace", "remove":
-			if !targets[o.Path] {
-				return false
+			if targets[o.Path] {
+				return true
 			}
 		case "rename":
-			if !targets[o.Path] && !targets[o.To] {
-				return false
+			if targets[o.Path] || targets[o.To] {
+				return true
 			}
-		default:
-			return false
 		}
 	}
-	return true
+	return false
 }
 
 // ------------------------------------------------------------------------------------ judge
@@ -709,6 +721,9 @@ func describe(c Case, upto int) string {
 	}
 	return b.String()
 }
+
+// trace (VERIF_C09_TRACE=1) prints one line per step of a history; meant for --replay runs.
+var trace = os.Getenv("VERIF_C09_TRACE") != ""
 
 func judge(c Case) vdrv.Verdict {
 	root, err := fsgen.MkdirScratch("c09-")
@@ -794,6 +809,9 @@ func judge(c Case) vdrv.Verdict {
 		rebuilt := canon(root, res)
 		dirtyFn = fn
 
+		if trace {
+			fmt.Printf("TRACE step %d %s: fresh errors=%d outputs=%d; rebuild vs fresh: %q; dirty=%d jsx=%+v lastJSXChange=%d\n", k, kind, len(fresh.Errors), len(fresh.Order), diffResults(fresh, rebuilt).String(), len(dirty), prevJSX, lastJSXChange)
+		}
 		if d := diffResults(fresh, rebuilt); d.any() {
 			// guard: the reference itself must be reproducible
 			if diffResults(fresh, canon(root, api.Build(opts))).any() {
@@ -1026,7 +1044,7 @@ func runHist(t *testing.T) {
 		"(through hook H1 in 80% of histories) must equal a fresh api.Build (output paths+bytes, metafile, errors/warnings with locations and notes); the watch predicates "+
 		"captured by the previous rebuild must report a change whenever the fresh result changed. Non-trivial = ≥3 actions including a config-file edit or a create/delete/rename/shadow "+
 		"that changed the fresh result.")
-	H.SetupRapid("hist", H.N(1600, 80000))
+	H.SetupRapid("hist", H.N(1600, 60000))
 	flag.Set("rapid.steps", "6")
 	rapid.Check(t, func(rt *rapid.T) {
 		c := genCase(rt)
